@@ -508,6 +508,27 @@ func (e *Engine) cevalCall(n *CCall, env *Env) Value {
 			return v
 		}
 		cfail("unknown ghost variable %s", id.Name)
+	case "with":
+		// with(x, Field, v): the opaque value x with one scalar field replaced
+		if len(n.Args) != 3 {
+			cfail("with(value, Field, newValue)")
+		}
+		id, ok := n.Args[1].(*CIdent)
+		base := sarg(0)
+		ot := opaqueSort(base.S)
+		if !ok || ot == nil {
+			cfail("with(value, Field, newValue) needs an opaque value and a field name")
+		}
+		fv, ok2 := opaqueField(ot, base.T, id.Name)
+		fsc, ok3 := fv.(Sc)
+		if !ok2 || !ok3 {
+			cfail("with(): %s is not a scalar field of %s", id.Name, ot.GoType)
+		}
+		nv := sarg(2)
+		if nv.S != fsc.S {
+			cfail("with(): %s has sort %s, got %s", id.Name, fsc.S, nv.S)
+		}
+		return Sc{app(ot.Sort+".set."+id.Name, base.T, nv.T), base.S}
 	case "has":
 		// has(m, k): k is a key of the map m
 		mv, ok := arg(0).(MapV)
